@@ -32,7 +32,7 @@ type c07Desc struct {
 	Delays  map[string]int `json:"hook_delay_ms"`
 	T       int64          `json:"timeout_ms"`
 	Subs    []string       `json:"healthy_subscriptions,omitempty"` // per extension: what it subscribes to once it behaves ("IS" default, "I", "S", "-" = nothing)
-	EventKB int            `json:"event_kib,omitempty"` // pad every event to this size (needed by the step next-noread)
+	EventKB int            `json:"event_kib,omitempty"`             // pad every event to this size (needed by the step next-noread)
 }
 
 var c07RtSteps = []string{"next", "next", "next", "respond", "respond", "respond-stale", "respond-garbage", "respond-twice", "respond-oversize", "error", "error-badtype", "initerror", "restorenext", "two-next", "half-body", "half-body-stall", "unknown-route", "bad-method", "ext-register", "stall", "short-stall", "exit0", "exit1", "sigsegv", "ignore-term", "idle-exit"}
